@@ -832,6 +832,10 @@ struct Ctx {
     force_by_decode: Option<bool>,
     /// inputs on which the crate aborted (skipped: not C03's business)
     aborted: Vec<Value>,
+    /// decoder objects kept across streams as long as nothing is pending
+    long_ev: Option<TTYEventDecoder>,
+    long_cmd: Option<TTYCommandDecoder>,
+    long_u8: Option<Utf8Decoder>,
 }
 
 fn pattern_case(ctx: &mut Ctx, rng: &mut Rng, pats: &[Re], inputs: &[Vec<u8>], forced_chunks: Option<Vec<Vec<u8>>>, exhaustive3: bool) {
@@ -1287,40 +1291,60 @@ fn sequence_sgr(rng: &mut Rng) -> (&'static str, Vec<u8>) {
     }
 }
 
-/// events of a public decoder under a partition, rendered with `{:?}`; "PANIC" ends the list
-fn public_events<D: Decoder>(mut dec: D, chunks: &[Vec<u8>]) -> Vec<String>
-where
-    D::Item: std::fmt::Debug,
-{
+/// Rendering of an event for comparison between partitions: the field-wise canonical text of C04's
+/// printer (built from the raw fields of the value) AND the crate's `Debug` text - two events count as
+/// the same only if both agree; the crate's `PartialEq` is cross-checked against it (`public_all`).
+fn show_ev(e: &surf_n_term::TerminalEvent) -> String {
+    format!("{} {:?}", events::show_event(e), e).replace('\n', "\\n")
+}
+
+fn show_cmd(c: &surf_n_term::TerminalCommand) -> String {
+    format!("{} {:?}", events::show_command(c), c).replace('\n', "\\n")
+}
+
+/// events of a public decoder under a partition; markers "PANIC" / "ERROR" / "UNCONSUMED" appear in the
+/// rendering only. `by_decode`: repeated `Decoder::decode` per read (as `UnixTerminal::poll` does) instead
+/// of the trait's default `decode_into`.
+fn public_events<D: Decoder>(dec: &mut D, chunks: &[Vec<u8>], by_decode: bool, show: fn(&D::Item) -> String) -> (Vec<String>, Vec<D::Item>) {
     let mut out = Vec::new();
+    let mut vals: Vec<D::Item> = Vec::new();
     for chunk in chunks {
         let mut items = Vec::new();
         let r = guarded(|| {
             let mut cur = Cursor::new(&chunk[..]);
-            let r = dec.decode_into(&mut cur, &mut items);
-            (r.is_ok(), cur.position() as usize)
+            let ok = if by_decode {
+                loop {
+                    match dec.decode(&mut cur) {
+                        Ok(Some(item)) => items.push(item),
+                        Ok(None) => break true,
+                        Err(_) => break false,
+                    }
+                }
+            } else {
+                dec.decode_into(&mut cur, &mut items).is_ok()
+            };
+            (ok, cur.position() as usize)
         });
-        out.extend(items.iter().map(|e| format!("{e:?}")));
+        out.extend(items.iter().map(show));
+        vals.extend(items);
         match r {
             Ok((true, pos)) if pos == chunk.len() => {}
             Ok((true, _)) => out.push("UNCONSUMED".into()),
             Ok((false, _)) => out.push("ERROR".into()),
             Err(()) => {
                 out.push("PANIC".into());
-                return out;
+                return (out, vals);
             }
         }
     }
-    out
+    (out, vals)
 }
 
 /// The same through the crate's own chunked reader: every read is written to an `IOQueue` and flushed (one
 /// chunk per read, an empty read leaves an empty chunk behind a non-empty one), then the decoder reads
 /// from the queue until it is drained.
-fn queue_events<D: Decoder>(mut dec: D, chunks: &[Vec<u8>]) -> Vec<String>
-where
-    D::Item: std::fmt::Debug,
-{
+fn queue_events<D: Decoder>(dec: &mut D, chunks: &[Vec<u8>], show: fn(&D::Item) -> String) -> (Vec<String>, Vec<D::Item>) {
+    let mut vals: Vec<D::Item> = Vec::new();
     let r = guarded(|| {
         let mut q = IOQueue::new();
         for c in chunks {
@@ -1332,7 +1356,8 @@ where
         for _ in 0..(4 * (chunks.len() + 4) + total) {
             let mut items = Vec::new();
             let r = dec.decode_into(&mut q, &mut items);
-            out.extend(items.iter().map(|e| format!("{e:?}")));
+            out.extend(items.iter().map(show));
+            vals.extend(items);
             if r.is_err() {
                 out.push("ERROR".into());
             }
@@ -1343,7 +1368,65 @@ where
         out.push("QUEUE-NOT-DRAINED".into());
         out
     });
-    r.unwrap_or_else(|()| vec!["PANIC".into()])
+    (r.unwrap_or_else(|()| vec!["PANIC".into()]), vals)
+}
+
+struct PubPart {
+    events: Vec<String>,
+    queue: Vec<String>,
+    /// the crate's `PartialEq` on the event lists disagrees with equality of the renderings
+    eq_disagrees: Option<String>,
+}
+
+struct PubAll {
+    parts: Vec<PubPart>,
+    /// the whole stream on a decoder object that has already decoded other streams (none pending)
+    reused: Option<Vec<String>>,
+}
+
+/// everything that is asked of a public decoder for one stream: every partition through `Cursor`
+/// (alternating `decode_into` / repeated `decode`) and through `IOQueue`, and the single buffer on a
+/// long-lived decoder object (`long`) that is kept as long as the streams leave nothing pending
+fn public_all<D: Decoder>(
+    mk: fn() -> D,
+    show: fn(&D::Item) -> String,
+    parts: &[Vec<Vec<u8>>],
+    long: &mut Option<D>,
+    stream: &[u8],
+    leaves_pending: bool,
+) -> PubAll
+where
+    D::Item: PartialEq,
+{
+    let mut out = Vec::new();
+    let mut base: Option<(Vec<String>, Vec<D::Item>)> = None;
+    for (pi, chunks) in parts.iter().enumerate() {
+        let (events, vals) = public_events(&mut mk(), chunks, pi % 2 == 1, show);
+        let (queue, qvals) = queue_events(&mut mk(), chunks, show);
+        let mut eq_disagrees = None;
+        match &base {
+            None => {}
+            Some((bs, bv)) => {
+                let clean = |s: &Vec<String>| s.iter().filter(|x| !matches!(x.as_str(), "PANIC" | "ERROR" | "UNCONSUMED" | "QUEUE-NOT-DRAINED")).cloned().collect::<Vec<_>>();
+                if (vals == *bv) != (clean(&events) == clean(bs)) {
+                    eq_disagrees = Some(format!("Cursor: PartialEq says {}, renderings say {}", vals == *bv, clean(&events) == clean(bs)));
+                }
+                if (qvals == *bv) != (clean(&queue) == clean(bs)) {
+                    eq_disagrees = Some(format!("IOQueue: PartialEq says {}, renderings say {}", qvals == *bv, clean(&queue) == clean(bs)));
+                }
+            }
+        }
+        if base.is_none() {
+            base = Some((events.clone(), vals));
+        }
+        out.push(PubPart { events, queue, eq_disagrees });
+    }
+    let reused = long.as_mut().map(|d| public_events(d, &[stream.to_vec()], false, show).0);
+    let broken = reused.as_ref().map(|r| r.iter().any(|e| e == "PANIC")).unwrap_or(false);
+    if long.is_none() || leaves_pending || broken {
+        *long = Some(mk());
+    }
+    PubAll { parts: out, reused }
 }
 
 fn production_case(ctx: &mut Ctx, rng: &mut Rng, command: bool, stream: &[u8], reference: &RefDfa, forced: Option<Vec<Vec<u8>>>) {
@@ -1366,15 +1449,17 @@ fn production_case(ctx: &mut Ctx, rng: &mut Rng, command: bool, stream: &[u8], r
     let (exp_items, exp_pending, tails) = reference.tokenize(stream);
     // an abort inside the crate (non-unwinding panic, e.g. in a payload decoder) cannot be caught: try the
     // whole case in a child process first; totality is property C02, not C03
+    let leaves_pending = !exp_pending.is_empty();
     let survived = survives(|| {
+        if command {
+            let _ = public_all(TTYCommandDecoder::new, show_cmd, &parts, &mut ctx.long_cmd, stream, leaves_pending);
+        } else {
+            let _ = public_all(TTYEventDecoder::new, show_ev, &parts, &mut ctx.long_ev, stream, leaves_pending);
+        }
         for chunks in &parts {
             if command {
-                let _ = public_events(TTYCommandDecoder::new(), chunks);
-                let _ = queue_events(TTYCommandDecoder::new(), chunks);
                 let _ = guarded(|| run_tok(&mut VerifTokenizer::command(), chunks, true, false));
             } else {
-                let _ = public_events(TTYEventDecoder::new(), chunks);
-                let _ = queue_events(TTYEventDecoder::new(), chunks);
                 let _ = guarded(|| run_tok(&mut VerifTokenizer::event(), chunks, true, false));
             }
         }
@@ -1384,6 +1469,23 @@ fn production_case(ctx: &mut Ctx, rng: &mut Rng, command: bool, stream: &[u8], r
         ctx.aborted.push(json!({"kind": name, "stream": hex(stream)}));
         return;
     }
+    let public = if command {
+        public_all(TTYCommandDecoder::new, show_cmd, &parts, &mut ctx.long_cmd, stream, leaves_pending)
+    } else {
+        public_all(TTYEventDecoder::new, show_ev, &parts, &mut ctx.long_ev, stream, leaves_pending)
+    };
+    // a decoder object that has decoded other streams before (nothing pending) gives the same events
+    if let Some(reused) = &public.reused {
+        ctx.out.hist(&format!("B:{name}:reused-decoder"));
+        if *reused != public.parts[0].events {
+            ctx.out.fail(
+                &format!("{name} decoder: a decoder that has decoded other streams before (none pending) gives other events than a new one"),
+                json!({"kind": name, "stream": hex(stream), "chunks": chunks_str(&parts[0]), "reused": true}),
+                json!(public.parts[0].events),
+                json!(reused),
+            );
+        }
+    }
     hist_tails(&mut ctx.out, &format!("B:{name}"), &tails);
     ctx.out.hist(&format!("B:{name}:longest-item:{}", len_bucket(exp_items.iter().map(|i| i.1.len()).max().unwrap_or(0))));
     let mut base_events: Option<Vec<String>> = None;
@@ -1391,12 +1493,9 @@ fn production_case(ctx: &mut Ctx, rng: &mut Rng, command: bool, stream: &[u8], r
     for (pi, chunks) in parts.iter().enumerate() {
         let input_json = json!({"kind": name, "stream": hex(stream), "chunks": chunks_str(chunks)});
         set_current(&input_json);
-        // 1. the public decoder: identical events under every partition
-        let events = if command {
-            public_events(TTYCommandDecoder::new(), chunks)
-        } else {
-            public_events(TTYEventDecoder::new(), chunks)
-        };
+        // 1. the public decoder: identical events under every partition (odd partitions: repeated `decode`
+        // per read as `UnixTerminal::poll` does, even ones: the trait's `decode_into`)
+        let events = public.parts[pi].events.clone();
         match &base_events {
             None => base_events = Some(events.clone()),
             Some(b) => {
@@ -1410,15 +1509,19 @@ fn production_case(ctx: &mut Ctx, rng: &mut Rng, command: bool, stream: &[u8], r
                 }
             }
         }
+        if let Some(msg) = &public.parts[pi].eq_disagrees {
+            ctx.out.fail(
+                &format!("{name}: PartialEq of the crate's event type disagrees with the field-wise rendering of the events (the comparison between partitions cannot rely on it)"),
+                input_json.clone(),
+                json!("PartialEq equal <=> renderings equal"),
+                json!(msg),
+            );
+        }
         // 1b. the same reads delivered through the crate's chunked reader `IOQueue`
         if !events.iter().any(|e| e == "PANIC") {
-            let qev = if command {
-                queue_events(TTYCommandDecoder::new(), chunks)
-            } else {
-                queue_events(TTYEventDecoder::new(), chunks)
-            };
+            let qev = &public.parts[pi].queue;
             ctx.out.hist(&format!("B:{name}:reader:IOQueue"));
-            if Some(&qev) != base_events.as_ref() {
+            if Some(qev) != base_events.as_ref() {
                 ctx.out.fail(
                     &format!("{name} decoder fed through IOQueue (one chunk per read): events differ from those of the single buffer"),
                     json!({"kind": name, "stream": hex(stream), "chunks": chunks_str(chunks), "reader": "IOQueue"}),
@@ -1487,12 +1590,9 @@ fn production_case(ctx: &mut Ctx, rng: &mut Rng, command: bool, stream: &[u8], r
             } else {
                 for (e, (t, b)) in events.iter().zip(flat.iter()) {
                     // unrecognised bytes must surface as the Raw event carrying exactly these bytes
-                    let want = if command {
-                        format!("{:?}", surf_n_term::TerminalCommand::Raw(b.clone()))
-                    } else {
-                        format!("{:?}", surf_n_term::TerminalEvent::Raw(b.clone()))
-                    };
-                    if t.is_none() && *e != want {
+                    // (`raw:<hex>` is the field-wise rendering of `Raw(bytes)`)
+                    let want = format!("raw:{} ", events::hexs(b));
+                    if t.is_none() && !e.starts_with(&want) {
                         ctx.out.fail(
                             &format!("{name}: raw event differs from the unrecognised bytes"),
                             input_json.clone(),
@@ -1586,6 +1686,31 @@ fn utf8_queue_run(chunks: &[Vec<u8>]) -> Vec<String> {
     .unwrap_or_else(|()| vec!["PANIC".into()])
 }
 
+/// results through the trait's default `decode_into` (stops at the first error, the caller goes on with what
+/// is left in the reader), on a given decoder object
+fn utf8_into_run(dec: &mut Utf8Decoder, chunks: &[Vec<u8>]) -> Vec<String> {
+    guarded(|| {
+        let mut out = Vec::new();
+        for chunk in chunks {
+            let mut cur = Cursor::new(&chunk[..]);
+            for _ in 0..=chunk.len() {
+                let mut items = Vec::new();
+                let r = dec.decode_into(&mut cur, &mut items);
+                out.extend(items.iter().map(|c| format!("{c:?}")));
+                match r {
+                    Ok(_) => break,
+                    Err(_) => out.push("error".to_string()),
+                }
+            }
+            if cur.position() as usize != chunk.len() {
+                out.push("UNCONSUMED".into());
+            }
+        }
+        out
+    })
+    .unwrap_or_else(|()| vec!["PANIC".into()])
+}
+
 fn utf8_answer(per: &[Vec<(char, Vec<u8>, String)>], pending: &[u8]) -> String {
     format!(
         "{} buf={}",
@@ -1618,6 +1743,10 @@ fn utf8_case(ctx: &mut Ctx, rng: &mut Rng, stream: &[u8], forced: Option<Vec<Vec
         for chunks in &parts {
             let _ = utf8_run(chunks);
             let _ = utf8_queue_run(chunks);
+            let _ = utf8_into_run(&mut Utf8Decoder::new(), chunks);
+        }
+        if let Some(d) = ctx.long_u8.as_mut() {
+            let _ = utf8_into_run(d, &[stream.to_vec()]);
         }
     });
     if !survived {
@@ -1649,6 +1778,35 @@ fn utf8_case(ctx: &mut Ctx, rng: &mut Rng, stream: &[u8], forced: Option<Vec<Vec
         }
         {
             let want: Vec<String> = base.as_ref().unwrap_or(&flat).iter().map(|x| x.2.clone()).collect();
+            // the trait's default `decode_into` (the other runs call `decode`)
+            let got = utf8_into_run(&mut Utf8Decoder::new(), chunks);
+            ctx.out.hist("B:utf8:decode_into");
+            if want != got {
+                ctx.out.fail(
+                    "Utf8Decoder through decode_into: results differ from those of repeated decode over the single buffer",
+                    json!({"kind": "utf8", "stream": hex(stream), "chunks": chunks_str(chunks), "via": "decode_into"}),
+                    json!(want),
+                    json!(got),
+                );
+            }
+            // a decoder object that has decoded other streams before (nothing held back)
+            if pi == 0 {
+                if let Some(d) = ctx.long_u8.as_mut() {
+                    let got = utf8_into_run(d, chunks);
+                    ctx.out.hist("B:utf8:reused-decoder");
+                    if want != got {
+                        ctx.out.fail(
+                            "Utf8Decoder: a decoder that has decoded other streams before (nothing held back) gives other results than a new one",
+                            json!({"kind": "utf8", "stream": hex(stream), "chunks": chunks_str(chunks), "reused": true}),
+                            json!(want),
+                            json!(got),
+                        );
+                    }
+                }
+                if ctx.long_u8.is_none() || !pending.is_empty() {
+                    ctx.long_u8 = Some(Utf8Decoder::new());
+                }
+            }
             let got = utf8_queue_run(chunks);
             ctx.out.hist("B:utf8:reader:IOQueue");
             if want != got {
@@ -1798,7 +1956,7 @@ fn main() {
     }
     let out = cfg.out();
     install_abort_hook(&cfg.outdir);
-    let mut ctx = Ctx { out, dfa_serial: 0, force_by_decode: None, aborted: Vec::new() };
+    let mut ctx = Ctx { out, dfa_serial: 0, force_by_decode: None, aborted: Vec::new(), long_ev: None, long_cmd: None, long_u8: None };
     let mut rng = Rng::new(cfg.seed);
     let refs = install_production(&mut ctx);
 
